@@ -269,7 +269,9 @@ pub fn gen_louv(rng: &mut Rng, profile: &str, size: usize) -> LouvCase {
     let weighted = rng.chance(50);
     let ties = profile == "ties";
     let mut g;
-    if ties && rng.chance(70) {
+    if profile == "hub" {
+        g = GraphCase { specs: crate::store::Specs { directed: true, multi: false, self_loops: false, dedupe: 1, missing: 0, slfalse: 1 }, nodes: vec![], edges: vec![] };
+    } else if ties && rng.chance(70) {
         // paths, cycles and regular graphs: exact ties between candidate communities
         let n = rng.range(3, size as i64 + 4) as u32;
         let directed = rng.chance(40);
@@ -316,6 +318,32 @@ pub fn gen_louv(rng: &mut Rng, profile: &str, size: usize) -> LouvCase {
         if rng.chance(50) { rng.shuffle(&mut nodes); }
         g = GraphCase { specs: crate::store::Specs { directed: true, multi: false, self_loops: false, dedupe: 1, missing: 0, slfalse: 1 }, nodes, edges };
         res = *rng.pick(&[(6i64, 5u32), (6, 5), (11, 10), (5, 4), (3, 2), (7, 4), (2, 1), (1, 1)]);
+    }
+    if profile == "hub" {
+        // degree thresholds: one or two nodes with 33..60 adjacent nodes (out-hub, in-hub or both ways), the other nodes
+        // sparsely connected among themselves and partly outside the hub's reach
+        let k = rng.range(33, 60) as u32;
+        let extra = rng.range(5, 30) as u32;
+        let n = 1 + k + extra;
+        let directed = rng.chance(75);
+        let mode = rng.below(3); // 0: hub -> leaves, 1: leaves -> hub, 2: mixed
+        let mut edges: Vec<(u32, u32, Option<i64>)> = vec![];
+        let wt = |rng: &mut Rng| if weighted { Some(rng.range(1, 3)) } else { None };
+        for leaf in 2..=(k + 1) {
+            let out = match mode { 0 => true, 1 => false, _ => rng.chance(50) };
+            let w = wt(rng);
+            edges.push(if out { (1, leaf, w) } else { (leaf, 1, w) });
+        }
+        let mut seen = std::collections::HashSet::new();
+        for _ in 0..(n + rng.range(0, n as i64) as u32) {
+            let (a, b) = (rng.range(2, n as i64) as u32, rng.range(2, n as i64) as u32);
+            if a == b || !seen.insert((a.min(b), a.max(b))) { continue; }
+            let w = wt(rng);
+            edges.push((a, b, w));
+        }
+        let mut nodes: Vec<u32> = (1..=n).collect();
+        if rng.chance(50) { rng.shuffle(&mut nodes); }
+        g = GraphCase { specs: crate::store::Specs { directed, multi: false, self_loops: false, dedupe: 1, missing: 0, slfalse: 1 }, nodes, edges };
     }
     // dyadic scaling is exact in f64: the implementation's decisions are those of the unscaled run
     LouvCase { g, weighted, res, seed: special_seed(rng, 1000), wden: *rng.pick(&[1u64, 1, 2, 4]) }
